@@ -1,6 +1,6 @@
 (* C03 -- slab pool: policy protocol -- map/unmap pairing, page accounting, poisoning. *)
 From Coq Require Import List NArith Bool Permutation.
-From FV Require Import Slab.SlabModel Slab.SlabInv Slab.SlabProto Slab.SlabC01 Slab.SlabLog Slab.SlabPoison.
+From FV Require Import Slab.SlabModel Slab.SlabInv Slab.SlabProto Slab.SlabC01 Slab.SlabLog Slab.SlabPoison Slab.SlabShadow.
 Import ListNotations.
 Local Open Scope N_scope.
 
@@ -42,11 +42,38 @@ Theorem C03_free_unmaps_only_mapped_partial :
 Proof. exact step_free_unmaps_mapped. Qed.
 Print Assumptions C03_free_unmaps_only_mapped_partial.
 
-(* Poisoning, part (a) of C03_poison_protocol.  The shadow is computed from the callback log ALONE: start all-poisoned
-   (fresh mappings arrive poisoned), [poison]/[unmap] clear a range, [unpoison]/[unpoison_expand] set it ([sh_fold]).
-   For a policy with poison hooks, after every prefix of every admissible history every requested byte of every live
-   block is unpoisoned. *)
-Theorem C03_poison_live_requested_partial :
+(* Poisoning.  The shadow is computed from the callback log ALONE: start all-poisoned (fresh mappings arrive poisoned),
+   [poison]/[unmap] clear a range, [unpoison]/[unpoison_expand] set it ([sh_fold sh0 log]).  For a policy with poison
+   hooks, after every prefix of every admissible history:
+   (c) [acc_ok]: walking the log, every access the pool itself makes (frame header reads/writes, link-word reads/writes,
+       memcpy source and destination -- the CAccess entries) hits only bytes that are unpoisoned at that moment;
+   and the invariant [Sh] holds:
+   (a) S_live: every requested byte of every live block is unpoisoned;
+   (b) S_free: every free small object (so in particular a block that has just been freed) is unpoisoned on exactly its
+       first 8 bytes, the link word:  sh x = in_range o 8 x  for every x in [o, o+item);
+       S_hs / S_hl: every frame header is unpoisoned;  S_out: no byte outside the mapped regions is unpoisoned. *)
+Theorem C03_poison_protocol :
+  forall (c : cfg) (ops : list op),
+    cfg_ok c = true -> poison c = true -> policy_ok c ops -> api_ok c ops ->
+    forall pre, prefix pre ops ->
+    let s := run c pre in
+    let sh := sh_fold sh0 (log c pre) in
+    acc_ok sh0 (log c pre) /\ Sh c s sh.
+Proof. exact C03_poison_protocol_main. Qed.
+Print Assumptions C03_poison_protocol.
+
+(* (b) spelled out for the block that has just been freed *)
+Theorem C03_freed_small_block_poisoned_except_link :
+  forall (c : cfg) (ops : list op) (p : N) (x : slab),
+    cfg_ok c = true -> poison c = true -> policy_ok c (ops ++ [Free p]) -> api_ok c (ops ++ [Free p]) ->
+    p <> 0 -> lookup c (run c ops) p = FSlab x ->
+    let sh := sh_fold sh0 (log c (ops ++ [Free p])) in
+    forall z, in_range p (sl_item x) z = true -> sh z = in_range p 8 z.
+Proof. exact C03_freed_small_block_main. Qed.
+Print Assumptions C03_freed_small_block_poisoned_except_link.
+
+(* (a) on its own *)
+Theorem C03_poison_live_requested :
   forall (c : cfg) (ops : list op),
     cfg_ok c = true -> poison c = true -> policy_ok c ops -> api_ok c ops ->
     forall pre, prefix pre ops ->
@@ -54,17 +81,7 @@ Theorem C03_poison_live_requested_partial :
     let sh := sh_fold sh0 (log c pre) in
     forall b x, In b (live s) -> bk_p b <= x -> x < bk_p b + N.max (bk_req b) 1 -> sh x = true.
 Proof. exact C03_poison_live_main. Qed.
-Print Assumptions C03_poison_live_requested_partial.
-
-(* NOT PROVED (the rest of C03_poison_protocol, kept visible): with the same shadow,
-   (b) a freed small block is poisoned except its first 8 bytes (the link word), and
-   (c) every CAccess range of the log (frame headers, link words, memcpy source and destination) is unpoisoned at the
-       time of the access.
-   Missing: an invariant relating the shadow to the free lists and the frame headers (the proof of (a) only needs that
-   poison calls stay inside the dying block / region).  Both are evaluated on the real code on every run: the harness
-   keeps its own bit-per-byte shadow (oracle kind `poison`) and forwards the calls to ASan manual poisoning, so any
-   pool access to a poisoned byte traps (`poison-access`; this is how D01 was found); the model's callback log is
-   compared with the real one line by line. *)
+Print Assumptions C03_poison_live_requested.
 
 Definition c03_cfg : cfg := mkCfg 4096 4096 4096 4 false true 40 104.
 Definition c03_ops : list op :=
